@@ -1,6 +1,7 @@
 """C06 Finite capacity."""
 from ..families import *
 from .. import oracles
+from ..history import History, markers
 
 INF = float("inf")
 
@@ -17,6 +18,10 @@ class Monitor(object):
         self.pre = None
         self.A = 0
 
+    def violate(self, clause, detail):
+        detail["history"] = markers(self.hub)
+        self.hub.violate("C06", clause, detail)
+
     def pops(self, Q):
         return [len(nd.all_individuals) for nd in Q.transitive_nodes]
 
@@ -30,9 +35,9 @@ class Monitor(object):
         pops = self.pops(Q)
         for i, (p, cap) in enumerate(zip(pops, self.caps)):
             if cap is not None and p > cap:
-                hub.violate("C06", "node_over_capacity", {"node": i + 1, "population": p, "capacity": cap})
+                self.violate("node_over_capacity", {"node": i + 1, "population": p, "capacity": cap})
         if sum(pops) > self.syscap:
-            hub.violate("C06", "system_over_capacity", {"population": sum(pops), "capacity": self.syscap})
+            self.violate("system_over_capacity", {"population": sum(pops), "capacity": self.syscap})
         A = Q.nodes[0].number_of_individuals
         if self.pre is not None:
             pre_pops, nid, cls, t = self.pre
@@ -59,24 +64,24 @@ class Monitor(object):
                 if full:
                     hub.flags.add("rejection_expected")
                     if not rejected:
-                        hub.violate("C06", "admitted_although_full", {"id": i, "node": nid, "population": pop[nid - 1], "capacity": cap,
+                        self.violate("admitted_although_full", {"id": i, "node": nid, "population": pop[nid - 1], "capacity": cap,
                                                                       "system_population": sum(pop), "system_capacity": self.syscap,
                                                                       "found": "baulk" if baulked else where.get(i, "exit")})
                     else:
                         if rec.queue_size_at_arrival != pop[nid - 1] or rec.arrival_date != t or rec.exit_date != t or rec.node != nid:
-                            hub.violate("C06", "rejection_record_wrong", {"id": i, "record": [harness_js(x) for x in rec],
+                            self.violate("rejection_record_wrong", {"id": i, "record": [harness_js(x) for x in rec],
                                                                            "population_seen": pop[nid - 1], "t": t})
                 else:
                     if rejected:
-                        hub.violate("C06", "rejected_although_space", {"id": i, "node": nid, "population": pop[nid - 1], "capacity": cap,
+                        self.violate("rejected_although_space", {"id": i, "node": nid, "population": pop[nid - 1], "capacity": cap,
                                                                        "system_population": sum(pop), "system_capacity": self.syscap})
                     elif baulked:
                         if not has_baulk:
-                            hub.violate("C06", "baulked_without_baulking_function", {"id": i, "node": nid})
+                            self.violate("baulked_without_baulking_function", {"id": i, "node": nid})
                     else:
                         if where.get(i) is None and i in exit_inds:
                             # admitted and already gone in the same event: impossible without an intermediate event
-                            hub.violate("C06", "admitted_customer_at_exit", {"id": i})
+                            self.violate("admitted_customer_at_exit", {"id": i})
                         pop[nid - 1] += 1
                         hub.flags.add("admitted")
         self.A = A
@@ -102,7 +107,7 @@ class Spec(object):
     ]
 
     def monitors(self, cfg):
-        return [Monitor(cfg)]
+        return [History(), Monitor(cfg)]
 
     def nontrivial(self, cfg, res):
         return "rejection_expected" in res.flags and "admitted" in res.flags
